@@ -480,6 +480,8 @@ pub fn run_direct(
 // ---------------------------------------------------------------------------
 // Replay files
 // ---------------------------------------------------------------------------
+pub static REPLAY_TIER_THOROUGH: std::sync::atomic::AtomicBool = std::sync::atomic::AtomicBool::new(false);
+
 pub fn write_replay(property: &str, v: &Violation, profile: &str) -> String {
     let dir = format!("{}/replays/{}", verif_root(), property);
     let _ = std::fs::create_dir_all(&dir);
@@ -489,6 +491,8 @@ pub fn write_replay(property: &str, v: &Violation, profile: &str) -> String {
     s.push_str(&format!("property={}\n", property));
     s.push_str(&format!("mode={}\n", if v.direct { "direct" } else { "mapped" }));
     s.push_str(&format!("profile={}\n", profile));
+    // (the generators scale with the tier, so the choices only mean the same case under the same tier)
+    s.push_str(&format!("tier={}\n", if REPLAY_TIER_THOROUGH.load(std::sync::atomic::Ordering::Relaxed) { "thorough" } else { "quick" }));
     s.push_str(&format!("signature={}\n", v.sig));
     s.push_str(&format!(
         "choices={}\n",
@@ -512,6 +516,7 @@ pub struct Replay {
     pub expect: String,
     /// name of a plain witness (regression tier), when the file records one
     pub witness: String,
+    pub thorough: bool,
 }
 
 pub fn read_replay(path: &str) -> Option<Replay> {
@@ -523,6 +528,7 @@ pub fn read_replay(path: &str) -> Option<Replay> {
         signature: String::new(),
         expect: String::new(),
         witness: String::new(),
+        thorough: false,
     };
     for line in s.lines() {
         if let Some(v) = line.strip_prefix("property=") {
@@ -531,6 +537,8 @@ pub fn read_replay(path: &str) -> Option<Replay> {
             r.direct = v.trim() == "direct";
         } else if let Some(v) = line.strip_prefix("signature=") {
             r.signature = v.to_string();
+        } else if let Some(v) = line.strip_prefix("tier=") {
+            r.thorough = v.trim() == "thorough";
         } else if let Some(v) = line.strip_prefix("witness=") {
             r.witness = v.trim().to_string();
         } else if let Some(v) = line.strip_prefix("expect=") {
